@@ -432,4 +432,70 @@ theorem binv_reachable (cfg : Cfg) (net0 : Net) (hd : net0.dead = false) (hb : n
     (s : St) (h : Reachable cfg net0 s) : BInv cfg s :=
   Sched.invariant_of_step (binv_init cfg net0 hd hb) (fun s l s' hi hs => binv_step cfg s s' l hi hs) s h
 
+/-! ### receiver steps: a composite execution has the receiver steps of its channel execution -/
+
+/-- The composite labels that are steps of the receiver: its channel steps and the conclusions of `on_batch`. -/
+def Label.isRx : Label → Bool
+  | .chan l => l.isRx
+  | .process => true
+
+theorem step_proj' (cfg : Cfg) (s s' : St) (l : Label) (h : step cfg s l = some s') :
+    ∃ bl, Batcher.step cfg.ch s.ch bl = some s'.ch ∧ bl.isRx = Label.isRx l := by
+  cases l with
+  | chan bl =>
+    refine ⟨bl, ?_, rfl⟩
+    cases bl
+    case rxOutcome o => simp [step] at h
+    case rxBegin =>
+      simp only [step] at h
+      cases hb : Batcher.step cfg.ch s.ch .rxBegin with
+      | none => simp [hb] at h
+      | some ch' =>
+        simp only [hb] at h
+        split at h <;> (cases h; rfl)
+    all_goals
+      simp only [step, Option.map_eq_some_iff] at h
+      obtain ⟨ch', hc, rfl⟩ := h
+      exact hc
+  | process =>
+    simp only [step] at h
+    split at h
+    · rename_i orig c ws reqs hrx hcur
+      cases hob : send cfg.tr reqs s.net with
+      | mk r net' =>
+        simp only [hob] at h
+        cases r with
+        | ok =>
+          simp only [Option.map_eq_some_iff] at h
+          obtain ⟨ch', hc, rfl⟩ := h
+          exact ⟨_, hc, rfl⟩
+        | retry rem =>
+          simp only [Option.map_eq_some_iff] at h
+          obtain ⟨ch', hc, rfl⟩ := h
+          refine ⟨.rxOutcome (.failRetry (itemsOf rem)), ?_, rfl⟩
+          rw [hc]; split <;> rfl
+        | noRetry =>
+          simp only [Option.map_eq_some_iff] at h
+          obtain ⟨ch', hc, rfl⟩ := h
+          exact ⟨_, hc, rfl⟩
+    · simp at h
+
+theorem run_proj (cfg : Cfg) : ∀ (ls : List Label) (s s' : St), Sched.run (step cfg) s ls = some s' →
+    ∃ bls, Sched.run (Batcher.step cfg.ch) s.ch bls = some s'.ch ∧
+      Sched.countSel Batcher.Label.isRx bls = Sched.countSel Label.isRx ls := by
+  intro ls
+  induction ls with
+  | nil => intro s s' h; simp at h; subst h; exact ⟨[], rfl, rfl⟩
+  | cons l ls ih =>
+    intro s s' h
+    simp only [Sched.run] at h
+    cases hs : step cfg s l with
+    | none => simp [hs] at h
+    | some s1 =>
+      simp only [hs] at h
+      obtain ⟨bl, hbl, hrx⟩ := step_proj' cfg s s1 l hs
+      obtain ⟨bls, hb, hc⟩ := ih s1 s' h
+      refine ⟨bl :: bls, by simp [Sched.run, hbl, hb], ?_⟩
+      rw [Sched.countSel_cons, Sched.countSel_cons, hc, hrx]
+
 end EmitModel.OtlpPipe
